@@ -137,6 +137,187 @@ theorem pList32_shrinks (p : P) (hp : Shrinks p) : Shrinks (pList32 p) := by
     · simp at h
   · simp at h
 
+/-- a parser that is `pN` of something depending on the input -/
+theorem pN_dep_shrinks (f : Bytes → Nat) : Shrinks (fun bs => pN (f bs) bs) := by
+  intro bs r h; exact pN_shrinks _ bs r h
+
+theorem pHA_shrinks : Shrinks pHA := by
+  intro bs r h; unfold pHA at h
+  split at h
+  · split at h
+    · exact pN_shrinks _ bs r h
+    · simp at h
+  · simp at h
+
+theorem pPcrSelection_shrinks : Shrinks pPcrSelection := by
+  intro bs r h; unfold pPcrSelection at h
+  split at h
+  · exact pN_shrinks _ bs r h
+  · simp at h
+
+theorem pTaggedPcr_shrinks : Shrinks pTaggedPcr := by
+  intro bs r h; unfold pTaggedPcr at h
+  split at h
+  · exact pN_shrinks _ bs r h
+  · simp at h
+
+theorem pTicket_shrinks : Shrinks pTicket := by
+  unfold pTicket; apply pSeq_shrinks; intro p hp
+  simp only [List.mem_cons, List.mem_nil_iff, or_false] at hp
+  rcases hp with rfl | rfl | rfl
+  · exact pN_shrinks _
+  · exact pN_shrinks _
+  · exact pB2_shrinks
+
+theorem pContext_shrinks : Shrinks pContext := by
+  unfold pContext; apply pSeq_shrinks; intro p hp
+  simp only [List.mem_cons, List.mem_nil_iff, or_false] at hp
+  rcases hp with rfl | rfl | rfl | rfl
+  · exact pN_shrinks _
+  · exact pN_shrinks _
+  · exact pN_shrinks _
+  · exact pB2_shrinks
+
+theorem pSignature_shrinks : Shrinks pSignature := by
+  intro bs r h; unfold pSignature at h
+  split at h
+  · split at h
+    · exact pN_shrinks _ bs r h
+    · split at h
+      · refine pSeq_shrinks _ ?_ bs r h
+        intro p hp; simp only [List.mem_cons, List.mem_nil_iff, or_false] at hp
+        rcases hp with rfl | rfl | rfl
+        · exact pN_shrinks _
+        · exact pN_shrinks _
+        · exact pB2_shrinks
+      · split at h
+        · refine pSeq_shrinks _ ?_ bs r h
+          intro p hp; simp only [List.mem_cons, List.mem_nil_iff, or_false] at hp
+          rcases hp with rfl | rfl | rfl | rfl
+          · exact pN_shrinks _
+          · exact pN_shrinks _
+          · exact pB2_shrinks
+          · exact pB2_shrinks
+        · split at h
+          · refine pSeq_shrinks _ ?_ bs r h
+            intro p hp; simp only [List.mem_cons, List.mem_nil_iff, or_false] at hp
+            rcases hp with rfl | rfl
+            · exact pN_shrinks _
+            · exact pHA_shrinks
+          · simp at h
+  · simp at h
+
+theorem pKdfScheme_shrinks : Shrinks pKdfScheme := by
+  intro bs r h; unfold pKdfScheme at h
+  split at h
+  · split at h <;> exact pN_shrinks _ bs r h
+  · simp at h
+
+theorem pEccScheme_shrinks : Shrinks pEccScheme := by
+  intro bs r h; unfold pEccScheme at h
+  split at h
+  · split at h
+    · exact pN_shrinks _ bs r h
+    · split at h <;> exact pN_shrinks _ bs r h
+  · simp at h
+
+theorem pEccDetail_shrinks : Shrinks pEccDetail := by
+  unfold pEccDetail; apply pSeq_shrinks; intro p hp
+  simp only [List.mem_cons, List.mem_nil_iff, or_false] at hp
+  rcases hp with rfl | rfl | rfl | rfl | rfl | rfl | rfl | rfl | rfl | rfl | rfl
+  · exact pN_shrinks _
+  · exact pN_shrinks _
+  · exact pKdfScheme_shrinks
+  · exact pEccScheme_shrinks
+  all_goals exact pB2_shrinks
+
+theorem pCapData_shrinks : Shrinks pCapData := by
+  intro bs r h; unfold pCapData at h
+  have hd : ∀ (q : P), Shrinks q → ∀ r, q (bs.drop 4) = some r → r.length ≤ bs.length := by
+    intro q hq r hr; have := hq _ _ hr; simp at this; omega
+  split at h
+  · simp only at h
+    split at h
+    · exact hd _ (pList32_shrinks _ (pN_shrinks _)) r h
+    · split at h
+      · exact hd _ (pList32_shrinks _ (pN_shrinks _)) r h
+      · split at h
+        · exact hd _ (pList32_shrinks _ pPcrSelection_shrinks) r h
+        · split at h
+          · exact hd _ (pList32_shrinks _ (pN_shrinks _)) r h
+          · split at h
+            · exact hd _ (pList32_shrinks _ pTaggedPcr_shrinks) r h
+            · split at h
+              · exact hd _ (pList32_shrinks _ (pN_shrinks _)) r h
+              · split at h
+                · refine hd _ (pList32_shrinks _ (pSeq_shrinks _ ?_)) r h
+                  intro p hp; simp only [List.mem_cons, List.mem_nil_iff, or_false] at hp
+                  rcases hp with rfl | rfl
+                  · exact pN_shrinks _
+                  · exact pHA_shrinks
+                · split at h
+                  · exact hd _ (pList32_shrinks _ (pN_shrinks _)) r h
+                  · simp at h
+  · simp at h
+
+theorem G_parser_shrinks (g : G) : Shrinks g.parser := by
+  cases g <;> unfold G.parser
+  · exact pB2_shrinks
+  · exact pN_shrinks _
+  · exact pN_shrinks _
+  · exact pN_shrinks _
+  · exact pN_shrinks _
+  · exact pTicket_shrinks
+  · exact pContext_shrinks
+  · exact pSignature_shrinks
+  · exact pCapData_shrinks
+  · exact pN_shrinks _
+  · exact pList32_shrinks _ pHA_shrinks
+  · exact pList32_shrinks _ pPcrSelection_shrinks
+  · exact pList32_shrinks _ pB2_shrinks
+  · exact pEccDetail_shrinks
+  · exact pList32_shrinks _ (pN_shrinks _)
+
+/-- every parser of the response grammar, for every command code, only consumes: the exact-parse check of a success
+    response therefore accounts for every byte of the parameter area once -/
+theorem respParams_shrinks (cc : Nat) (ps : List P) (h : respParams cc = some ps) : ∀ p ∈ ps, Shrinks p := by
+  unfold respParams at h
+  cases hg : respGrammar cc with
+  | none => simp [hg] at h
+  | some gs =>
+    simp only [hg, Option.map_some, Option.some.injEq] at h; subst h
+    intro p hp; simp only [List.mem_map] at hp
+    obtain ⟨g, _, rfl⟩ := hp; exact G_parser_shrinks g
+
+/-- the parameter area of a success response that parses exactly is consumed completely by the command's grammar -/
+theorem respSeq_shrinks (cc : Nat) (ps : List P) (h : respParams cc = some ps) : Shrinks (pSeq ps) :=
+  pSeq_shrinks ps (respParams_shrinks cc ps h)
+
+/-- what an accepted response looks like, whatever the request: at least a header, the size field equal to the number of
+    bytes returned, within the buffer; an error is a bare header with tag NO_SESSIONS -/
+theorem accepted_response_shape (req rsp : Bytes) (bufSize : Nat) (h : checkResponse req rsp bufSize = none) :
+    10 ≤ rsp.length ∧ (rdBE rsp 2 4).getD 0 = rsp.length ∧ rsp.length ≤ bufSize ∧
+    ((rdBE rsp 6 4).getD 0 ≠ 0 → rsp.length = 10 ∧ (rdBE rsp 0 2).getD 0 = Gen.TPM_ST_NO_SESSIONS) := by
+  unfold checkResponse at h
+  split at h
+  · simp at h
+  · simp only at h
+    split at h
+    · simp at h
+    · split at h
+      · simp at h
+      · refine ⟨by omega, by omega, by omega, ?_⟩
+        intro hrc
+        rw [if_pos hrc] at h
+        split at h
+        · simp at h
+        · omega
+example : respGrammar 0x178 = some [.eccDetail] ∧ respGrammar 0x14C = some [.b2, .signature] ∧ respGrammar 0x19C = some [] ∧ respGrammar 0x11E = none := by decide
+/-- a GetRandom success response (4 random bytes) is accepted; one trailing byte, or a stale size field, is not -/
+example : checkResponse [0x80, 0x01, 0, 0, 0, 12, 0, 0, 0x01, 0x7B, 0, 4] [0x80, 0x01, 0, 0, 0, 16, 0, 0, 0, 0, 0, 4, 1, 2, 3, 4] 4096 = none := by decide
+example : (checkResponse [0x80, 0x01, 0, 0, 0, 12, 0, 0, 0x01, 0x7B, 0, 4] [0x80, 0x01, 0, 0, 0, 17, 0, 0, 0, 0, 0, 4, 1, 2, 3, 4, 5] 4096).isSome = true := by decide
+example : (checkResponse [0x80, 0x01, 0, 0, 0, 12, 0, 0, 0x01, 0x7B, 0, 4] [0x80, 0x01, 0, 0, 0, 16, 0, 0, 0, 0, 0, 5, 1, 2, 3, 4] 4096).isSome = true := by decide
+
 /-! non-vacuity -/
 example : frameCheck [0x80, 0x01, 0, 0, 0, 10, 0, 0, 0x01, 0x7B] true = none := by decide
 example : frameCheck [0x80, 0x03, 0, 0, 0, 10, 0, 0, 0x01, 0x7B] true = some Gen.TPM_RC_VALUE := by decide
